@@ -3,6 +3,7 @@ package main
 // World: the loaded program, naming, call graph summaries.
 
 import (
+	"sync"
 	"fmt"
 	"go/ast"
 	"go/token"
@@ -33,6 +34,8 @@ type World struct {
 	globalList  []*ssa.Global
 	funcIDs     map[*ssa.Function]int
 	modSum      map[*ssa.Function]map[string]bool // heap names possibly written (excluding fresh objects)
+	ghostSum    map[*ssa.Function]map[string]bool // ghost variables possibly assigned
+	ghostOnce   sync.Once
 	modAll      map[*ssa.Function]bool
 	srcCache    map[string][]byte
 	Contracts   *ContractFile
@@ -677,6 +680,107 @@ func (w *World) computeMods() {
 			}
 		}
 	}
+}
+
+// contractForCallW: the contract a call site is checked against (interface method, static callee,
+// named function type).
+func (w *World) contractForCallW(c *ssa.CallCommon) *Contract {
+	cf := w.Contracts
+	if cf == nil {
+		return nil
+	}
+	if c.IsInvoke() {
+		tn := namedTypeName(c.Value.Type())
+		if tn == "" {
+			return nil
+		}
+		return cf.ByName["iface "+tn+"."+c.Method.Name()]
+	}
+	if f := c.StaticCallee(); f != nil {
+		return cf.ByName[calleeName(f)]
+	}
+	if _, ok := c.Value.(*ssa.Builtin); ok {
+		return nil
+	}
+	if tn := namedTypeName(c.Value.Type()); tn != "" {
+		return cf.ByName["functype "+tn]
+	}
+	return nil
+}
+
+// ghostsSetBy: the ghost variables a package function may assign, directly (a call whose contract
+// has a ghostset clause) or through the functions it calls. A call to such a function that does not
+// itself declare the ghost's new value leaves the ghost arbitrary in the caller.
+func (w *World) ghostsSetBy(f *ssa.Function) map[string]bool {
+	w.ghostOnce.Do(func() {
+		w.ghostSum = map[*ssa.Function]map[string]bool{}
+		for _, f := range w.AllFuncs {
+			m := map[string]bool{}
+			for _, b := range f.Blocks {
+				for _, in := range b.Instrs {
+					if c, ok := in.(ssa.CallInstruction); ok {
+						if ct := w.contractForCallW(c.Common()); ct != nil {
+							for g := range ct.GhostSet {
+								m[g] = true
+							}
+						}
+					}
+				}
+			}
+			w.ghostSum[f] = m
+		}
+		for changed := true; changed; {
+			changed = false
+			for _, f := range w.AllFuncs {
+				m := w.ghostSum[f]
+				for _, b := range f.Blocks {
+					for _, in := range b.Instrs {
+						c, ok := in.(ssa.CallInstruction)
+						if !ok {
+							continue
+						}
+						ct := w.contractForCallW(c.Common())
+						if ct != nil && (ct.Pure || ct.Function) {
+							continue
+						}
+						targets, _ := w.callTargets(c.Common())
+						for _, t := range targets {
+							if t.Pkg != w.Pkg {
+								continue
+							}
+							for g := range w.ghostSum[t] {
+								if (ct == nil || ct.GhostSet[g] == nil) && !m[g] {
+									m[g] = true
+									changed = true
+								}
+							}
+						}
+					}
+				}
+			}
+		}
+	})
+	return w.ghostSum[f]
+}
+
+// callGhostHavoc: ghosts left arbitrary by a call (see ghostsSetBy).
+func (w *World) callGhostHavoc(c *ssa.CallCommon, ct *Contract) []string {
+	if ct != nil && (ct.Pure || ct.Function) {
+		return nil
+	}
+	set := map[string]bool{}
+	targets, _ := w.callTargets(c)
+	for _, t := range targets {
+		if t.Pkg != w.Pkg {
+			continue
+		}
+		for g := range w.ghostsSetBy(t) {
+			if ct == nil || ct.GhostSet[g] == nil {
+				set[g] = true
+			}
+		}
+	}
+	return sortedKeys(set)
 }
 
 // instrMods: heaps possibly written by executing the instruction (including callees), as seen
